@@ -93,6 +93,10 @@ def build(c):
         means = [0.25] * n
         new = child.mapper_from_prior_means(means, a=0.5)
         setattr(model, key, new)
+    for level, name, kind in c.get("opaques", []):
+        value = {"none": None, "str": "txt", "tuple": (1.0, 2.5), "list": [1.0, 2.5], "int": 3,
+                 "inst": vclasses.G2(1.0, 2.5)}[kind]
+        setattr(at_level(model, level), name, value)
     for level, name, items in c.get("dicts", []):
         setattr(at_level(model, level), name, {k: unhex(v) for k, v in items})
     for a in c.get("asserts", []):
@@ -150,7 +154,14 @@ def abstract_state(obj, occ):
     if isinstance(obj, bool):
         return {"t": "other", "repr": repr(obj)}
     if isinstance(obj, (float, int)):
-        return {"t": "const", "v": hexf(float(obj))}
+        out = {"t": "const", "v": hexf(float(obj))}
+        if isinstance(obj, int):
+            out["int"] = True          # the Coq model has floats only; the oracle compares the tag
+        return out
+    if obj is None or isinstance(obj, str):
+        return {"t": "other", "repr": "%s:%r" % (type(obj).__name__, obj)}
+    if isinstance(obj, (tuple, list)) and all(isinstance(x, (float, int)) and not isinstance(x, bool) for x in obj):
+        return {"t": "other", "repr": "%s:%s" % (type(obj).__name__, [(type(x).__name__, hexf(float(x))) for x in obj])}
     if isinstance(obj, TuplePrior):
         ms = [[k, abstract_state(v, occ)] for k, v in obj.__dict__.items() if not k.startswith("_") and k != "id"]
         return {"t": "tuple", "members": ms}
@@ -172,25 +183,40 @@ def abstract_state(obj, occ):
                 "asserts": [abstract_assertion(a) for a in obj.__dict__.get("_assertions", [])]}
     if isinstance(obj, Collection):
         attrs = [[k, abstract_state(v, occ)] for k, v in obj.__dict__.items() if not k.startswith("_") and k not in ("id", "item_number")]
-        return {"t": "coll", "attrs": attrs,
+        return {"t": "coll", "attrs": attrs, "item_number": obj.__dict__.get("item_number"),
                 "asserts": [abstract_assertion(a) for a in obj.__dict__.get("_assertions", [])]}
     if isinstance(obj, dict):
         if all(isinstance(k, str) and isinstance(v, float) for k, v in obj.items()):
             return {"t": "dict", "items": [[k, hexf(v)] for k, v in obj.items()]}
         return {"t": "other", "repr": "dict"}
     if type(obj).__name__ in vclasses.CLASSES and type(obj) is vclasses.CLASSES[type(obj).__name__]:
-        attrs = [[k, abstract_state(v, occ)] for k, v in obj.__dict__.items() if k != "id"]
+        # (Model.__setattr__ stamps a process-counter based `label` string on whatever object it is given:
+        #  library bookkeeping like ids, not part of the model)
+        attrs = [[k, abstract_state(v, occ)] for k, v in obj.__dict__.items()
+                 if k != "id" and not (k == "label" and isinstance(v, str))]
         return {"t": "inst", "cls": type(obj).__name__, "attrs": attrs}
+    if type(obj).__name__ == "Array" and hasattr(obj, "shape"):
+        attrs = [[k, abstract_state(v, occ)] for k, v in obj.__dict__.items()
+                 if not k.startswith("_") and k not in ("id", "shape", "indices")]
+        return {"t": "array", "attrs": attrs,
+                "shape": repr(obj.__dict__.get("shape")), "indices": repr(obj.__dict__.get("indices")),
+                "asserts": [abstract_assertion(a) for a in obj.__dict__.get("_assertions", [])]}
     return {"t": "other", "repr": type(obj).__name__}
 
 
 def abstract_instance(obj):
     if isinstance(obj, bool):
         return {"t": "other", "repr": repr(obj)}
+    if obj is None or isinstance(obj, str):
+        return {"t": "other", "repr": "%s:%r" % (type(obj).__name__, obj)}
+    if type(obj).__name__ == "ndarray":
+        return {"t": "other", "repr": "ndarray:%s:%s" % (obj.shape, [hexf(x) for x in obj.ravel().tolist()])}
     if isinstance(obj, (float, int)):
         return {"t": "v", "v": hexf(float(obj))}
     if isinstance(obj, tuple):
         return {"t": "tup", "vs": [abstract_instance(x) for x in obj]}
+    if isinstance(obj, list):
+        return {"t": "other", "repr": "list:%s" % [abstract_instance(x) for x in obj]}
     if isinstance(obj, ModelInstance):
         return {"t": "coll", "fields": [[str(k), abstract_instance(v)] for k, v in obj.dict.items()]}
     if isinstance(obj, dict):
@@ -200,7 +226,8 @@ def abstract_instance(obj):
         return {"t": "coll", "fields": [[k, abstract_instance(v)] for k, v in obj.__dict__.items() if not k.startswith("_") and k != "id"]}
     if type(obj).__name__ in vclasses.CLASSES:
         return {"t": "obj", "cls": type(obj).__name__,
-                "fields": [[k, abstract_instance(v)] for k, v in obj.__dict__.items() if k != "id"]}
+                "fields": [[k, abstract_instance(v)] for k, v in obj.__dict__.items()
+                           if k != "id" and not (k == "label" and isinstance(v, str))]}
     return {"t": "other", "repr": type(obj).__name__}
 
 
@@ -234,7 +261,23 @@ def observe(model, values_by_pos, pathvals0):
             complete = False
     out["pv"] = pv
     out["pv_complete"] = complete
-    out["inst"] = guarded(lambda: abstract_instance(model.instance_from_path_arguments({tuple(p): unhex(v) for p, v in pv})))
+    args = {tuple(p): unhex(v) for p, v in pv}
+    # the instance itself (assertions ignored) and, separately, what the assertions say about these values
+    out["inst"] = guarded(lambda: abstract_instance(model.instance_from_path_arguments(args, ignore_assertions=True)))
+    try:
+        model.instance_from_path_arguments(args)
+        out["verdict"] = "ok"
+    except BaseException as e:  # noqa
+        out["verdict"] = exc_name(e)
+    # the vector route (gates of every level included)
+    try:
+        vec = [val[id(p)] for p in model.priors_ordered_by_id]
+        model.instance_from_vector(vec, ignore_prior_limits=True)
+        out["verdict_vector"] = "ok"
+    except KeyError:
+        out["verdict_vector"] = "n/a"
+    except BaseException as e:  # noqa
+        out["verdict_vector"] = exc_name(e)
     # the property's own formulation: the same value for each (original) path
     if pathvals0 is not None:
         def strict():
@@ -256,12 +299,26 @@ def observe(model, values_by_pos, pathvals0):
 
 # ------------------------------------------------------------------ round trips
 _counter = [0]
+ROW_ORDER = []
 
 
 def trip(model, form, variant):
     if form == "dict":
         if variant == "autoconf":
             return from_dict(json.loads(json.dumps(to_dict(model))))
+        if variant == "reference":
+            # class paths handed over separately: from_dict(d, reference={"path.in.model": "class.path"})
+            d = json.loads(json.dumps(model.dict()))
+            reference = {}
+
+            def strip(x, path):
+                if isinstance(x, dict):
+                    if "class_path" in x and x.get("type") in ("model", "instance"):
+                        reference[".".join(path)] = x.pop("class_path")
+                    for k, v in (x.get("arguments") or {}).items():
+                        strip(v, path + [str(k)])
+            strip(d, [])
+            return af.AbstractPriorModel.from_dict(d, reference=reference)
         if variant == "file":
             _counter[0] += 1
             path = os.path.join(SCRATCH, "model_%d_%d.json" % (os.getpid(), _counter[0]))
@@ -287,7 +344,19 @@ def trip(model, form, variant):
             session.expire_all()
             session.close()
             session = sa.orm.sessionmaker(bind=engine)()
-            loaded = session.query(db.Fit).one().model
+            fit = session.query(db.Fit).one()
+            loaded = fit.model
+            # rows are rebuilt in the order the `children` relationship returns them (no order_by):
+            # record whether that is the order in which they were written (ascending row id)
+            bad = []
+            stack = [fit._Fit__model]
+            while stack:
+                row = stack.pop()
+                kids = list(row.children)
+                if [k.id for k in kids] != sorted(k.id for k in kids):
+                    bad.append(str(row.name))
+                stack.extend(kids)
+            ROW_ORDER.append(bad)
             session.close()
             return loaded
         finally:
@@ -318,24 +387,49 @@ def run_case(c):
             out["steps"].append({"exc": type(e).__name__, "msg": str(e)[:200], "tb": traceback.format_exc()[-500:]})
             break
         o, _ = observe(cur, vals_by_pos, pathvals0)
-        out["steps"].append({"ok": True})
+        out["steps"].append({"ok": True, "rows_out_of_order": ROW_ORDER.pop() if (st["form"] == "db" and ROW_ORDER) else []})
         out["states"].append(o)
     return out
 
 
+def observe_array(model, pathvals):
+    out = {"count": model.prior_count}
+    out["path_ids"] = sorted([list(map(str, path)), int(prior.id)] for path, prior in model.path_priors_tuples)
+    out["specs"] = sorted([list(map(str, path)), abstract_prior(prior)["fam"], hexf(prior.lower_limit), hexf(prior.upper_limit)]
+                          for path, prior in model.path_priors_tuples)
+    out["state"] = abstract_state(model, [])
+    def inst():
+        args = {tuple(path): pathvals[tuple(map(str, path))] for path in model.unique_prior_paths}
+        return abstract_instance(model.instance_from_path_arguments(args))
+    out["inst"] = guarded(inst)
+    out["medians"] = guarded(lambda: abstract_instance(model.instance_from_prior_medians()))
+    return out
+
+
 def run_array(c):
-    """Oracle-only stream: af.Array models (every entry is prior.new())."""
+    """af.Array models: entries are prior.new() copies, optionally a constant entry, an entry with its own
+    prior, an entry shared with another component."""
     base = make_prior(c["prior"], [])
     shape = tuple(c["shape"])
     arr = af.Array(shape, base)
-    shared = None
+    indices = list(arr.indices)
+    for k, mod in c.get("entries", []):
+        index = indices[k % len(indices)]
+        arr[index] = unhex(mod["v"]) if mod["t"] == "const" else make_prior(mod["spec"], [])
     if c.get("share"):
         shared = make_prior(c["prior"], [])
-        arr[tuple(0 for _ in shape)] = shared
+        arr[indices[0]] = shared
         model = af.Collection(arr=arr, g=af.Model(vclasses.G2, a=shared, b=1.0))
+    elif c.get("bare"):
+        model = arr
     else:
         model = af.Collection(arr=arr)
-    out = {"count": [model.prior_count], "paths": [sorted(list(map(str, p)) for p in model.paths)], "steps": []}
+    pathvals = {}
+    for i, (path, prior) in enumerate(sorted(model.path_priors_tuples, key=lambda t: tuple(map(str, t[0])))):
+        pathvals.setdefault(int(prior.id), 0.125 * (i + 1))
+    byid = dict(pathvals)
+    pathvals = {tuple(map(str, path)): byid[int(prior.id)] for path, prior in model.path_priors_tuples}
+    out = {"states": [observe_array(model, pathvals)], "steps": []}
     cur = model
     for st in c["steps"]:
         try:
@@ -344,14 +438,13 @@ def run_array(c):
             out["steps"].append({"exc": type(e).__name__, "msg": str(e)[:200]})
             break
         out["steps"].append({"ok": True})
-        out["count"].append(cur.prior_count)
-        out["paths"].append(sorted(list(map(str, p)) for p in cur.paths))
+        out["states"].append(observe_array(cur, pathvals))
     return out
 
 
 def probe():
     """Which of the C08 repairs does this tree contain?  Four fixed inputs, one per modelled repair."""
-    out = {}
+    out = {"dill": dill is not None}
     a = af.UniformPrior(0.0, 1.0)
     m = af.Model(vclasses.G2, a=a, b=a.new())
     try:
